@@ -333,6 +333,31 @@ def frame_case(draw, multi_preset, max_rows, max_cols):
     return case
 
 
+@st.composite
+def long_frame_case(draw):
+    """Frames of 33 000 - 70 000 rows (more than any internal row block): whole-column quantities such as max(X) are taken over
+    the whole column."""
+    n = draw(st.integers(33_000, 70_000))
+    k = draw(st.integers(2, 4))
+    counts = draw(_compose(n, k))
+    if draw(st.integers(0, 2)) > 0:
+        # a value that grows along the file (a counter, a timestamp bucket): rows stay in this order. The smallest value fills
+        # more than 2^15 rows but less than 80 % of the file, so whole-column results have at least two frequent values
+        n = max(n, 45_000)
+        c0 = draw(st.integers(32_768 + 1, (78 * n) // 100))
+        counts = [c0] + draw(_compose(n - c0, k - 1))
+        vals = sorted(draw(st.lists(st.sampled_from(['1', '3', '40', '500', '2000', '123456.5', '0.5']), min_size=k, max_size=k, unique=True)),
+                      key=float)
+        col = {'name': draw(st.sampled_from(NAME_POOL)), 'vals': vals, 'counts': counts, 'seed': 0, 'keep_order': True}
+    else:
+        # one cell holds a value far above the others: it sits in one row block only
+        vals = [draw(_NUM) for _ in counts]
+        counts[0] = max(1, counts[0] - 1)
+        col = {'name': draw(st.sampled_from(NAME_POOL)), 'vals': vals + [draw(st.sampled_from(['5000', '123456.5', '1e9']))],
+               'counts': counts + [n - sum(counts)], 'seed': draw(st.integers(0, 2**32 - 1))}
+    return {'presets': [draw(st.sampled_from(['default', 'minimal']))], 'n': n, 'cols': [col], 'label_first': draw(st.booleans())}
+
+
 # ---- oracle ----------------------------------------------------------------------------------------
 
 def build_cells(col, n):
@@ -341,6 +366,8 @@ def build_cells(col, n):
         cells += [v] * c
     if len(cells) != n:
         raise HarnessError(f'column {col["name"]} has {len(cells)} cells, expected {n}')
+    if col.get('keep_order'):
+        return cells
     perm = np.random.Generator(np.random.PCG64(col['seed'])).permutation(n).tolist()
     return [cells[i] for i in perm]
 
@@ -556,7 +583,7 @@ def oracle_presets(case, rec):
     oracle(case, rec, preset_clause=True)
 
 
-ORACLES = {'C12/instance-reuse': oracle_formula, 'C12/formula-keepdrop': oracle_formula, 'C12/preset-union': oracle_presets,
+ORACLES = {'C12/instance-reuse': oracle_formula, 'C12/long-frame': oracle_formula, 'C12/formula-keepdrop': oracle_formula, 'C12/preset-union': oracle_presets,
            'C12/unknown-name': oracle_formula}
 
 
@@ -564,6 +591,7 @@ def run(ctx):
     clauses = [
         Clause('C12/formula-keepdrop', lambda: frame_case(False, 200, 3), oracle_formula, quick=1920, thorough=44000,
                quick_shards=12),
+        Clause('C12/long-frame', long_frame_case, oracle_formula, quick=12, thorough=96, quick_shards=6, thorough_shards=16),
         Clause('C12/preset-union', lambda: frame_case(True, 40, 2), oracle_presets, quick=400, thorough=10000,
                quick_shards=4),
     ]
